@@ -89,6 +89,8 @@ SEEDS = {
     "C20b-raw-method-on-owner-loop": ("C20", "__getattr__ returns the raw bound method when looked up on the owner's loop",
         "the attribute looked up on the owner's loop and the resulting callable invoked from another thread's loop"),
     # ---- round 3 (each agent was told both earlier changes for its property)
+    "C01c-cancel-returns-frame-number": ("C01", "send_data no longer shields the send task and _send_data_frame hands its frame number back on CancelledError",
+        "a caller cancelled between the first transmission of its frame and its ACK, the frame (or a retransmission) getting through, and another send following: the next payload re-uses the number, is acknowledged by the old frame's ACK and discarded by the NCP"),
     "C02c-parse-except-narrowed": ("C02", "data_received catches `ParsingError` instead of `Exception` around unstuff/parse: the AssertionError of the only DATA length check escapes",
         "a CRC-valid DATA frame with a data field of 257 bytes or more (within the buffer bound): data_received raises, no NAK, later frames of the read stay buffered"),
     "C03c-dispatch-on-type-bits": ("C03", "parse_frame dispatches on the top three bits and looks RST/RSTACK/ERROR up by the low five bits: 0xE0/0xE1/0xE2 are accepted as RST/RSTACK/ERROR",
@@ -135,7 +137,7 @@ ALSO = {
     "C04b-rstack-keeps-counters": ["C11"], "C05b-ack-window-no-wrap": ["C01"], "C09b-reset-future-done-unchecked": ["C10", "C11"],
     "C10b-failed-state-dedup": ["C05"], "C11b-counters-zeroed-at-request": ["C04"],
     "C03c-dispatch-on-type-bits": ["C02"], "C04c-error-deduplicated": ["C05"], "C10c-gateway-transport-cleared": ["C11"],
-    "C11c-clean-close-swallowed": ["C10"], "C12c-v14-tag-one-byte": ["C07"],
+    "C11c-clean-close-swallowed": ["C10"], "C12c-v14-tag-one-byte": ["C07"], "C01c-cancel-returns-frame-number": ["C05"],
 }
 
 
